@@ -43,10 +43,10 @@ MANIFEST = {
             "rows->table->rows and table->rows->table are identities (zip(*.) twice), including the empty table; "
             "from_dict(todict(t)) = t for arbitrarily nested table fields (dotted keys split at the first dot, level by level; "
             "needs dot-free distinct field names, refuted otherwise). Typed construction: the dispatch of "
-            "_implicit_format_conversion is re-tabulated from the running code on every run (10 field kinds x 19 argument forms "
+            "_implicit_format_conversion is re-tabulated from the running code on every run (10 field kinds x 30 argument forms, text also as bytes / object arrays / NumPy str_ scalars / raw identifier bytes "
             "-> class of the stored column or raise; add_fields type inference x 14 forms; Gen/C19.lean) and the kernel re-checks 'converts to the declared type or "
             "raises' over the whole table with per-kind declared classes (int -> integer array, float -> float array, bool -> bool array, ...), "
-            "except the explicitly listed cells of the recorded findings (20 cells keep another numeric dtype, 31 store the argument "
+            "except the explicitly listed cells of the recorded findings (20 cells keep another numeric dtype, 42 store the argument "
             "unconverted: construct_census; no listed cell is stale: construct_whitelists_tight). The whole program interpreter on columns "
             "equals the row-wise interpreter on entries, in rows, width and failure (run_refines_rows; the row interpreter is the "
             "Spec side the driver runs); table[i] for an integer i = rows[i], IndexError exactly outside -n <= i < n "
@@ -176,12 +176,22 @@ def _forms():
         "series_str": lambda: pd.Series(["ACG", "T"], dtype="string"),
         "series_int": lambda: pd.Series([1, 2]),
         "strand_str": lambda: ["+", "-"],
+        # text in its other carriers: byte strings (kind 'S'), Python objects holding str / bytes, NumPy str_ scalars,
+        # the raw bytes of an identifier column, a 0-filled fixed-width byte matrix
+        "list_bytes": lambda: [b"ACG", b"T"],
+        "nd_bytes": lambda: np.array([b"ACG", b"T"]),
+        "nd_obj_str": lambda: np.array(["ACG", "T"], dtype=object),
+        "nd_obj_bytes": lambda: np.array([b"ACG", b"T"], dtype=object),
+        "list_npstr": lambda: [np.str_("ACG"), np.str_("T")],
+        "sid_raw": lambda: as_string_array(["ACG", "T"]).raw(),
+        "series_bytes": lambda: pd.Series([b"ACG", b"T"]),
     }
 
 
 FORM_ORDER = ["list_str", "list_int", "list_float", "list_bool", "list_none", "nd_int", "nd_float", "nd_bool", "nd_str",
               "nd_obj_int", "series_obj_int", "actg_ragged", "actg_flat", "encoded_ragged", "dna_ragged", "string_array", "ragged_int", "list_list_int", "table", "list_entries",
-              "series_str", "series_int", "strand_str"]
+              "series_str", "series_int", "strand_str",
+              "list_bytes", "nd_bytes", "nd_obj_str", "nd_obj_bytes", "list_npstr", "sid_raw", "series_bytes"]
 
 # the declared type's column classes (what "converted to its declared type" means for each field kind)
 ALLOWED = {
@@ -561,6 +571,18 @@ SORTABLE = {"int", "float", "opt", "sid", "str", "dna", "bigint"}
 ADDABLE = ["int", "str", "float", "bigint"]
 
 
+TEXT_CARRIERS = ["list_str", "list_bytes", "nd_bytes", "nd_str", "nd_obj_str", "nd_obj_bytes", "list_npstr", "sid_raw", "digits_bytes"]
+
+
+def _text_column(carrier):
+    """two cells of text that is no number (and, last, text that LOOKS like numbers), in every carrier text comes in"""
+    from bionumpy.string_array import as_string_array
+    return {"list_str": lambda: ["zz", "y"], "list_bytes": lambda: [b"zz", b"y"], "nd_bytes": lambda: np.array([b"zz", b"y"]),
+            "nd_str": lambda: np.array(["zz", "y"]), "nd_obj_str": lambda: np.array(["zz", "y"], dtype=object),
+            "nd_obj_bytes": lambda: np.array([b"zz", b"y"], dtype=object), "list_npstr": lambda: [np.str_("zz"), np.str_("y")],
+            "sid_raw": lambda: as_string_array(["zz", "y"]).raw(), "digits_bytes": lambda: np.array([b"10", b"7"])}[carrier]()
+
+
 def _single_ops(kinds, n, rng):
     """the fixed list of single operations for a table with n rows"""
     w = len(kinds)
@@ -721,8 +743,16 @@ def cases(tier, rng):
         yield {"op": "construct", "type": tname, "n": 2, "bad": None}
         for j, k in enumerate(kinds):
             yield {"op": "construct", "type": tname, "n": 2, "bad": {"col": j, "what": "len"}}
-            if k in ("int", "float", "opt", "dna", "strand"):
+            if k in ("int", "float", "opt", "dna", "strand", "bool"):
                 yield {"op": "construct", "type": tname, "n": 2, "bad": {"col": j, "what": "content"}}
+            if k in ("int", "float", "bool", "opt"):
+                # the same text in its other carriers (bytes, object arrays, NumPy str_ scalars, raw identifier bytes), and
+                # through every path that builds a table: the constructor, replace, add_fields with a declared type
+                for ci, carrier in enumerate(TEXT_CARRIERS):
+                    for vi, via in enumerate(("ctor", "replace", "add_fields")):
+                        if tname.startswith("D_") or (ci + vi + j) % 3 == 0:
+                            yield {"op": "construct", "type": tname, "n": 2,
+                                   "bad": {"col": j, "what": "content", "carrier": carrier, "via": via}}
     # 1h. ONE entry by integer index, t[i] and column[i], i from below -len to above len-1 (Python int / NumPy integer),
     #     on the table as built and on fresh, never-read selections of it (slice, reversed, index list, mask, two in a row)
     for tname in names:
@@ -1185,10 +1215,20 @@ def impl(c):
             j, k = bad["col"], kinds[bad["col"]]
             if bad["what"] == "len":
                 colsv[j] = _column(m, k, [3 + i for i in range(n + 1)])
+            elif "carrier" in bad:
+                badcol = _text_column(bad["carrier"])
+                if bad["via"] == "ctor":
+                    colsv[j] = badcol
             else:
-                colsv[j] = {"int": ["zz", "y"], "float": ["zz", "y"], "opt": ["zz", "y"], "dna": ["ACX", "G"], "strand": ["+", "x"]}[k]
+                colsv[j] = {"int": ["zz", "y"], "float": ["zz", "y"], "opt": ["zz", "y"], "dna": ["ACX", "G"], "strand": ["+", "x"],
+                            "bool": ["zz", "y"]}[k]
         try:
             t = cls(*colsv)
+            if bad and bad.get("via") == "replace":
+                t = m["bnp"].replace(t, **{names[j]: badcol})
+            elif bad and bad.get("via") == "add_fields":
+                t = t.add_fields({"extra": badcol}, field_type_map={"extra": m["pytype"][k]})
+                kinds, names = kinds + [k], names + ["extra"]
         except Exception as e:
             return {"err": "raise", "exc": type(e).__name__}
         unconv = [k for k, f in zip(kinds, dataclasses.fields(t))
@@ -1257,6 +1297,8 @@ def agree(c, got, exp):
     if c["op"] == "construct_cell":
         return isinstance(got, dict) and got.get("conforms_or_raises") is True
     if c["op"] == "construct":
+        if c["bad"] and c["bad"].get("carrier") == "digits_bytes" and isinstance(got, dict) and "ok" in got:
+            return "unconverted" not in got          # byte text that spells numbers: converted to numbers, or refused
         return isinstance(got, dict) and (("ok" in got) == ("ok" in exp))
     if not _same(c, got, exp):
         return False
